@@ -165,11 +165,15 @@ fn rd32(b: &[u8], at: usize) -> u32 {
     u32::from_le_bytes([b[at], b[at + 1], b[at + 2], b[at + 3]])
 }
 
-fn write_name(name: &str) -> Result<Written, String> {
+fn write_name(name: &str, enc: bool) -> Result<Written, String> {
+    use zip::unstable::write::FileOptionsExt;
     let mut w = zip::ZipWriter::new(Cursor::new(Vec::new()));
-    let opts = zip::write::FileOptions::default()
+    let mut opts = zip::write::FileOptions::default()
         .compression_method(zip::CompressionMethod::Stored)
         .last_modified_time(zip::DateTime::default());
+    if enc {
+        opts = opts.with_deprecated_encryption(b"pw");
+    }
     w.start_file(name, opts).map_err(|e| zerr_class(&e))?;
     let bytes = w.finish().map_err(|e| zerr_class(&e))?.into_inner();
     // the archive has one entry, no data, no extra field, no comments: everything between the fixed
@@ -184,7 +188,7 @@ fn write_name(name: &str) -> Result<Written, String> {
     }
     let back = match zip::ZipArchive::new(Cursor::new(&bytes[..])) {
         Err(e) => Err(zerr_class(&e)),
-        Ok(mut ar) => match ar.by_index(0) {
+        Ok(mut ar) => match ar.by_index_raw(0) {
             Err(e) => Err(zerr_class(&e)),
             Ok(f) => Ok((f.name().to_string(), f.name_raw().to_vec())),
         },
@@ -193,7 +197,7 @@ fn write_name(name: &str) -> Result<Written, String> {
         stored: bytes[cd + 46..eocd].to_vec(),
         len_field: rd16(&bytes, cd + 28),
         flags: rd16(&bytes, cd + 8),
-        local_stored: bytes[30..cd].to_vec(),
+        local_stored: bytes[30..(30 + rd16(&bytes, 26) as usize).min(cd)].to_vec(),
         local_len_field: rd16(&bytes, 26),
         local_flags: rd16(&bytes, 6),
         back,
@@ -499,6 +503,7 @@ impl Stream for Text {
         for &c in BOUNDARY.iter() {
             g.push("write.boundary", format!("text.write chars={}", scalars([c])));
             g.push("write.boundary", format!("text.write chars={}", scalars([0x61, c, 0x62])));
+            g.push("write.encrypted", format!("text.write chars={} enc=1", scalars([0x61, c, 0x62])));
         }
         g.push("write.empty", "text.write chars=-".into());
         for (len, ascii) in [(65535usize, true), (65535, false), (65534, false), (255, false), (256, true)] {
@@ -553,7 +558,8 @@ impl Stream for Text {
                     Some(s) => s,
                     None => return "bad-op".into(),
                 };
-                match catch(move || write_name(&cs)) {
+                let enc = a.get("enc").map(|v| v == "1").unwrap_or(false);
+                match catch(move || write_name(&cs, enc)) {
                     Err(_) => "panic".into(),
                     Ok(Err(e)) => e,
                     Ok(Ok(w)) => {
@@ -561,7 +567,7 @@ impl Stream for Text {
                             Ok((n, raw)) => format!("back={} raw={}", str_scalars(n), hex(raw)),
                             Err(e) => e.clone(),
                         };
-                        format!("ok stored={} len={} flag={} {}", hex(&w.stored), w.len_field, (w.flags >> 11) & 1, back)
+                        format!("ok stored={} len={} flag={} bit0={} {}", hex(&w.stored), w.len_field, (w.flags >> 11) & 1, w.flags & 1, back)
                     }
                 }
             }
@@ -670,7 +676,11 @@ impl Stream for Text {
                 if field("raw") != hex(s.as_bytes()) {
                     fail("name_raw() read back differs from the bytes written".into());
                 }
-                if let Ok(Ok(w)) = catch({ let s = s.clone(); move || write_name(&s) }) {
+                let enc = a.get("enc").map(|v| v == "1").unwrap_or(false);
+                if field("bit0") != (enc as u8).to_string() {
+                    fail(format!("encryption flag (bit 0) is {} for an entry written {} a password", field("bit0"), if enc { "with" } else { "without" }));
+                }
+                if let Ok(Ok(w)) = catch({ let s = s.clone(); move || write_name(&s, enc) }) {
                     if w.local_stored != w.stored || w.local_len_field != w.len_field || w.local_flags != w.flags {
                         fail("local and central header disagree on name bytes / length / flags".into());
                     }
